@@ -465,7 +465,10 @@ type State struct {
 	heap       map[string]*HArr // heap key (with comp suffix) -> one-level array (base + point updates)
 	lazy       map[string]*Lazy
 	epoch      int
-	hv         int // heap version counter (bumped on every mutation)
+	hv         int                                  // heap version counter (bumped on every mutation)
+	hvF        int                                  // version counter of writes to objects allocated in this activation that have not escaped into the heap
+	escaped    bool                                 // a reference to such an object has been stored somewhere
+	keepFn     func(key string) (int, string, bool) // keys spared by an earlier 'modifies allbut' havoc: their epoch and watermark
 	pc         []PCItem
 	held       map[string]string // lock address key -> Bool term ("true","false", symbolic); "R:" prefix for read-held
 	defers     [][]Deferred
@@ -487,7 +490,7 @@ type State struct {
 func (st *State) clone() *State {
 	n := &State{
 		env: make(map[ssa.Value]Val, len(st.env)), heap: make(map[string]*HArr, len(st.heap)), lazy: make(map[string]*Lazy, len(st.lazy)),
-		epoch: st.epoch, hv: st.hv, epochAlloc: st.epochAlloc, pc: st.pc[:len(st.pc):len(st.pc)], held: make(map[string]string, len(st.held)), alloc: st.alloc,
+		epoch: st.epoch, hv: st.hv, hvF: st.hvF, escaped: st.escaped, keepFn: st.keepFn, epochAlloc: st.epochAlloc, pc: st.pc[:len(st.pc):len(st.pc)], held: make(map[string]string, len(st.held)), alloc: st.alloc,
 		ghost: make(map[string]Val, len(st.ghost)), idx: st.idx[:len(st.idx):len(st.idx)], keys: st.keys[:len(st.keys):len(st.keys)],
 		visited: make(map[ssa.Value]string, len(st.visited)), depth: st.depth, visitedKey: st.visitedKey,
 		dbg: make(map[string]Val, len(st.dbg)), dbgAddr: make(map[string]Val, len(st.dbgAddr)), applied: make(map[string]bool, len(st.applied)),
